@@ -74,3 +74,67 @@ Definition evaluate_mixed : option (list E) :=
     end
   end.
 End MixedWhole.
+
+(* ------------------------------------------------------------------ round 9: the verifier's evaluate_constraints for E != B.
+   The OOD frames and the point x are extension-field values; the periodic column polynomials, the value polynomials and
+   offsets of main assertions, the offsets of auxiliary assertions and all divisor constants are base-field values that the
+   code lifts with E::from / polynom::eval::<B, E>. *)
+Section MixedVerifier.
+Context {B E : Type} (OB : FOps B) (OE : FOps E).
+Variable emb : B -> E.
+
+(* air::BoundaryConstraint<E, E> against the auxiliary segment: value polynomial in E, offset in B *)
+Record BCa := mkBCa { a_col : nat; a_poly : list E; a_first : nat; a_xoff : B; a_cc : E }.
+Record BGa := mkBGa { ga_div : @Div B; ga_cs : list BCa }.
+
+(* ConstraintDivisor<B>::evaluate_at::<E>(x): (x^a - E::from(b)) / prod (x - E::from(e)) *)
+Definition div_evaluate_at_mixed (d : @Div B) (x : E) : E :=
+  fdiv OE (fmul OE (fone OE) (fsub OE (cpow OE x (dv_a d)) (emb (dv_b d))))
+          (fold_left (fun r e => fmul OE r (fsub OE x (emb e))) (dv_ex d) (fone OE)).
+
+(* BoundaryConstraintGroup<B, E>::evaluate_at(state, x) *)
+Definition gm_evaluate_at (g : @BGm B E) (state : list E) (x : E) : option E :=
+  match acc_opt OE (fun c => match nth_error state (m_col c) with
+                             | Some tv => Some (fmul OE (bc_evaluate_at_mixed OB OE emb (m_poly c) (m_xoff c) x tv) (m_cc c))
+                             | None => None end) (gm_cs g) (Some (fzero OE)) with
+  | Some numerator => Some (fdiv OE numerator (div_evaluate_at_mixed (gm_div g) x))
+  | None => None
+  end.
+
+(* BoundaryConstraintGroup<E, E>::evaluate_at(state, x): polynom::eval(&poly, x * E::from(offset)) in E *)
+Definition ga_evaluate_at (g : BGa) (state : list E) (x : E) : option E :=
+  match acc_opt OE (fun c => match nth_error state (a_col c) with
+                             | Some tv =>
+                               let av := if length (a_poly c) =? 1 then nth 0 (a_poly c) (fzero OE)
+                                         else horner OE (a_poly c) (fmul OE x (emb (a_xoff c))) in
+                               Some (fmul OE (fsub OE tv av) (a_cc c))
+                             | None => None end) (ga_cs g) (Some (fzero OE)) with
+  | Some numerator => Some (fdiv OE numerator (div_evaluate_at_mixed (ga_div g) x))
+  | None => None
+  end.
+
+Variable n : nat.
+Variable rou : nat -> B.
+Variable num_main num_aux : nat.
+Variable tmainE : list E -> list E -> list E -> list E.      (* Air::evaluate_transition::<E> on the OOD frame *)
+Variable tauxE : list E -> list E -> list E -> list E -> list E -> list E -> list E.
+Variable ppolys : list (list B).
+Variable exemptions : nat.
+Variable tcoef : list E.
+Variable main_groups : list (@BGm B E).
+Variable aux_groups : list BGa.
+Variable rands : list E.
+
+Definition evaluate_constraints_mixed (cur nxt : list E) (auxf : option (list E * list E)) (x : E) : option E :=
+  let pv := periodic_at_mixed OE emb n ppolys x in
+  let t1 := tmainE cur nxt pv in
+  let t2 := match auxf with Some (ac, an) => tauxE cur nxt ac an pv rands | None => repeat (fzero OE) num_aux end in
+  let merged := lincomb OE t1 (main_coef num_main tcoef) in
+  let merged := match aux_coef num_main tcoef with [] => merged | _ => fadd OE merged (lincomb OE t2 (aux_coef num_main tcoef)) end in
+  let result := Some (fdiv OE merged (div_evaluate_at_mixed (tdiv OB n rou exemptions) x)) in
+  let result := acc_opt OE (fun g => gm_evaluate_at g cur x) main_groups result in
+  match auxf with
+  | Some (ac, _) => acc_opt OE (fun g => ga_evaluate_at g ac x) aux_groups result
+  | None => result
+  end.
+End MixedVerifier.
